@@ -63,28 +63,27 @@ theorem C18_list_buckets_refines (H : Hashes) (dl : Nat) {s : State} (hi : Inv s
 
 /-! ## objects -/
 
-/-- put_object: the written content, metadata and checksums become the object, the answer carries the MD5 ETag; bad
-    digests and refused names are answered alike. Partial — excluded: missing bucket (fs:put-into-missing-bucket),
-    non-canonical / directory keys (fs:key-normalised, fs:directory-key), a path that is not free
-    (prefix-freedom, fs:leftover-directory), over-long side-file names (fs:long-key-internal-error), a request
-    without metadata over an old metadata file (fs:stale-metadata-after-overwrite, fs:metadata-survives-delete) -/
+/-- put_object: the written content, metadata (none given = none kept) and checksums become the object, the answer carries
+    the MD5 ETag; a missing bucket, bad digests and refused names are answered alike. Partial — excluded: non-canonical /
+    directory keys (fs:key-normalised, fs:directory-key), a path that is not free (prefix-freedom, fs:leftover-directory),
+    over-long side-file names (fs:long-key-internal-error) -/
 theorem C18_put_refines_partial (H : Hashes) (dl : Nat) {s : State} (hi : Inv s) {b k c : Bytes} {md : Option Meta}
-    {cks : Cks} {clen : Option Int} (hg : PutOk s b k md) :
+    {cks : Cks} {clen : Option Int} (hg : PutOk s b k) :
     (step H dl s (.putObject b k c md cks clen)).2 = (StoreSpec.step H (abs s) (.putObject b k c md cks clen)).2 ∧
     abs (step H dl s (.putObject b k c md cks clen)).1 = (StoreSpec.step H (abs s) (.putObject b k c md cks clen)).1 ∧
     Inv (step H dl s (.putObject b k c md cks clen)).1 := put_refines H dl hi hg
 
-/-- get_object, whole and ranged: the most recently written content, metadata, MD5 ETag; for a range the RFC 9110
-    slice (`rfcInterval`) with `Content-Range` and `Content-Length`, `InvalidRange` when unsatisfiable. Partial —
-    excluded: missing bucket (fs:missing-bucket-reported-as-missing-key), a suffix range longer than the object
-    (fs:suffix-range-longer-than-object, fs:suffix-range-huge-panics), leftover directories, non-canonical keys -/
+/-- get_object, whole and with ANY range (int, open-ended, suffix of any length): the most recently written content,
+    metadata, MD5 ETag; for a range the RFC 9110 slice (`rfcInterval`) with `Content-Range` and `Content-Length`,
+    `InvalidRange` when unsatisfiable. Partial — excluded: missing bucket (fs:missing-bucket-reported-as-missing-key),
+    leftover directories, non-canonical keys -/
 theorem C18_get_refines_partial (H : Hashes) (dl : Nat) {s : State} (hi : Inv s) {b k : Bytes} {range : Option Range}
-    (hg : GetOk s b k range) :
+    (hg : GetOk s b k) :
     (step H dl s (.getObject b k range)).2 = (StoreSpec.step H (abs s) (.getObject b k range)).2 ∧
     abs (step H dl s (.getObject b k range)).1 = (StoreSpec.step H (abs s) (.getObject b k range)).1 ∧
     Inv (step H dl s (.getObject b k range)).1 := get_refines H dl hi hg
 
-/-- range_slice: what the store (hence, by `C18_get_refines_partial`, the backend) answers to a satisfiable range:
+/-- range_slice: what the store (hence, by `C18_get_refines_partial`, the backend) answers to a range that selects bytes:
     exactly the bytes `[st, en)` of the object, `Content-Length = en - st`, `Content-Range: bytes st-(en-1)/len`,
     and with a `Content-Range` present the HTTP layer answers 206 -/
 theorem C18_range_slice (H : Hashes) (o : Obj) (r : Range) (st en : Nat)
@@ -93,18 +92,11 @@ theorem C18_range_slice (H : Hashes) (o : Obj) (r : Range) (st en : Nat)
       .get ((o.content.drop st).take (en - st)) (en - st) (some (fmtContentRange st (en - 1) o.content.length))
         (some (etagOf H o.content)) o.md o.cks ∧
     status (readObj H o (some r)) = 206 := by
-  have hge : ¬ st ≥ en := by omega
-  simp [readObj, h, hge, slice, status]
+  simp [readObj, h, hne, slice, status]
 
-/-- `Range::check` computes the RFC 9110 interval whenever it answers, and refuses exactly the ranges RFC 9110
-    calls unsatisfiable or that select no byte (suffix ranges longer than the object: see the partial get theorem) -/
-theorem C18_range_check (r : Range) (len : Nat) (h : ∀ n, r = .suffix n → n ≤ len) :
-    (rangeCheck r len = none ∧
-      (DtoSpec.rfcInterval (toByteRange r) len = none ∨
-        ∃ st en, DtoSpec.rfcInterval (toByteRange r) len = some (st, en) ∧ st ≥ en)) ∨
-    (∃ st en, rangeCheck r len = some (st, en) ∧ DtoSpec.rfcInterval (toByteRange r) len = some (st, en) ∧
-      st < en ∧ (∀ f l, r = .int f l → st = f) ∧ (∀ n, r = .suffix n → st = len - n)) :=
-  rangeCheck_spec r len h
+/-- `Range::check` is the RFC 9110 interval, for every range and every length (full) -/
+theorem C18_range_check (r : Range) (len : Nat) :
+    rangeCheck r len = DtoSpec.rfcInterval (toByteRange r) len := rangeCheck_eq r len
 
 /-- head_object: length and metadata of the most recent write. Partial — answers agree up to the ETag, which the backend
     never returns (fs:head-without-etag); excluded: a missing key in an existing bucket (fs:head-missing-key-code) -/
@@ -129,9 +121,9 @@ theorem C18_delete_objects_refines_partial (H : Hashes) (dl : Nat) {s : State} (
     abs (step H dl s (.deleteObjects b keys)).1 = (StoreSpec.step H (abs s) (.deleteObjects b keys)).1 ∧
     Inv (step H dl s (.deleteObjects b keys)).1 := deleteObjects_refines H dl hi hg
 
-/-- copy_object: the destination becomes the source's content, metadata and checksums. Partial — excluded: copy onto
-    itself (fs:copy-onto-itself-destroys-object), a destination metadata file the source lacks
-    (fs:stale-metadata-after-copy), differing recorded checksums (fs:stale-checksum-after-copy), missing source bucket -/
+/-- copy_object: the destination becomes the source's content, metadata and checksums; an object copied onto itself
+    stays as it is. Partial — excluded: a destination metadata file the source lacks (fs:stale-metadata-after-copy),
+    differing recorded checksums (fs:stale-checksum-after-copy), missing source bucket -/
 theorem C18_copy_refines_partial (H : Hashes) (dl : Nat) {s : State} (hi : Inv s) {sb sk db dk : Bytes}
     (hg : CopyOk s sb sk db dk) :
     (step H dl s (.copyObject sb sk db dk)).2 = (StoreSpec.step H (abs s) (.copyObject sb sk db dk)).2 ∧
@@ -172,7 +164,8 @@ theorem C18_listing_exact (objs : List (Bytes × Obj)) (pfx after : Option Bytes
 
 /-! ## multipart uploads -/
 
-/-- create_multipart_upload. Partial — excluded: missing bucket or refused key (fs:create-upload-not-validated) -/
+/-- create_multipart_upload: a missing bucket and refused names are answered alike. Partial — excluded only: over-long
+    metadata file names (fs:long-key-internal-error) -/
 theorem C18_create_upload_refines_partial (H : Hashes) (dl : Nat) {s : State} (hi : Inv s) {who : Who} {b k : Bytes}
     {md : Option Meta} (hg : CreateUploadOk s b k) :
     (step H dl s (.createMultipartUpload who b k md)).2 =
@@ -275,17 +268,23 @@ def kX : Bytes := [120]                 -- "x"
 def alice : Who := some [65]
 def bob : Who := some [66]
 
-/-- a realistic history inside `Good`: bucket, writes with and without metadata, whole / ranged / suffix reads, head,
+/-- a realistic history inside `Good`: bucket, writes with and without metadata (also over an object that had some),
+    whole / ranged / suffix reads (suffix longer than the object, suffix of an empty object), a copy onto itself, head,
     prefix listing with marker, copy, delete, a multipart upload driven by its owner and refused to another identity -/
 def demo : List Op := [
   .createBucket bka,
   .putObject bka kDE [1, 2, 3, 4, 5] (some [([109], [118])]) {} none,
   .putObject bka kA [] none {} none,
+  .putObject bka kDE [1, 2, 3, 4, 5] none {} none,
+  .putObject bka kDE [1, 2, 3, 4, 5] (some [([109], [118])]) {} none,
   .getObject bka kDE none,
   .getObject bka kDE (some (.int 1 (some 3))),
   .getObject bka kDE (some (.int 2 none)),
   .getObject bka kDE (some (.suffix 2)),
+  .getObject bka kDE (some (.suffix 9)),
+  .getObject bka kA (some (.suffix 3)),
   .getObject bka kDE (some (.int 7 none)),
+  .copyObject bka kDE bka kDE,
   .headObject bka kDE,
   .listObjectsV2 bka (some [100, 47]) none (some kA) none,
   .copyObject bka kDE bka kDF,
@@ -313,13 +312,13 @@ example : (run H0 4096 {} demo).2.map Resp.core = (StoreSpec.run H0 {} demo).2.m
 
 /-- the per-operation predicates are inhabited on a state with objects: an overwrite carrying metadata, a ranged read,
     a copy between objects that both have metadata files -/
-example : PutOk (run H0 4096 {} (demo.take 3)).1 bka kDE (some []) := by decide
-example : GetOk (run H0 4096 {} (demo.take 3)).1 bka kDE (some (.int 0 (some 99))) := by decide
+example : PutOk (run H0 4096 {} (demo.take 3)).1 bka kDE := by decide
+example : GetOk (run H0 4096 {} (demo.take 3)).1 bka kDE := by decide
 example : CopyOk (run H0 4096 {} (demo.take 11)).1 bka kDE bka kDF := by decide
 /-- a ranged part copy `bytes=1-3` from an existing object into the owner's upload -/
-example : UploadPartCopyOk (run H0 4096 {} (demo.take 16)).1 bka kX (some 1) 2 bka kDE
+example : UploadPartCopyOk (run H0 4096 {} (demo.take 21)).1 bka kX (some 1) 2 bka kDE
     (some [98, 121, 116, 101, 115, 61, 49, 45, 51]) := by decide
-/-- … and they do exclude the recorded deviations: an overwrite without metadata over an object that has some -/
-example : ¬ PutOk (run H0 4096 {} (demo.take 3)).1 bka kDE none := by decide
+/-- … and they do exclude the recorded deviations: a copy onto an object that has a metadata file from a source without -/
+example : ¬ CopyOk (run H0 4096 {} (demo.take 5)).1 bka kA bka kDE := by decide
 
 end S3V.C18
